@@ -9,6 +9,7 @@ bytes to the other end as ``read`` events, cut into chunks as the spec says (nev
 read, like a real socket component).
 """
 import json
+import re
 
 from circuits import BaseComponent, Event, Manager, handler
 from circuits.net.events import connect as connect_event, read as read_event
@@ -260,7 +261,9 @@ class Rig:
                 self.fw_calls.append((proc, kind, event.name))
                 if event.name in boom:
                     return event.kwargs['no-such-token'] == 'secret'
-                return event.name not in deny
+                # a predicate need not return a bool: 'how' selects what it returns for reject / accept
+                no, yes = [(False, True), (None, 1), (0, 'yes'), ('', [1]), ([], 2.5)][firewalls.get(proc, {}).get('how', 0) % 5]
+                return no if event.name in deny else yes
             return check
 
         # ---- server process
@@ -431,15 +434,13 @@ class Rig:
             if not label.endswith('>H') or not isinstance(pkt, dict) or 'name' in pkt or 'id' not in pkt:
                 continue
             sent = getattr(self, 'injected', {}).get('H>' + label[:-2], b'')
-            ids = []
-            for raw in sent.split(DELIM):
-                try:
-                    x = json.loads(raw.decode('utf-8'))
-                except (ValueError, RecursionError):
-                    continue
-                if isinstance(x, dict) and 'name' in x:
-                    ids.append(json.dumps(x.get('id'), sort_keys=True))
-            if json.dumps(pkt['id'], sort_keys=True) not in ids:
+            if b'\\' in sent:
+                continue        # escapes can spell anything: no verdict
+            # the node protocol also takes a delimiter-less prefix that parses as JSON for a packet, so "what H sent" is
+            # read generously: any "id": <value> occurring in its bytes counts as a call id H used
+            want = json.dumps(pkt['id'], sort_keys=True)
+            pat = rb'"id"\s*:\s*' + re.escape(want.encode('utf-8')).replace(rb'\ ', rb'\s*')
+            if not re.search(pat, sent):
                 out.append((label, pkt['id']))
         return out
 
